@@ -75,7 +75,7 @@ CLAIMED = {
          'generated graphs x corpora with exactly representable weights',
          'Theorems (closed under the global context): the agenda loop credits exactly the word synset and its ancestors, once each, '
          'and terminates on cyclic graphs; closed forms of every synset weight and class total (conservation, unknown words '
-         'ignored; with distributed weights and one class, total = smoothing + sum of the counts; corpus order irrelevant); monotone up the taxonomy; probability in (0,1]; information content non-negative and antitone for any '
+         'ignored; with distributed weights and one class, total = smoothing + sum of the counts; corpus order irrelevant); monotone up the taxonomy; the root of a single-rooted class weighs the class total (probability 1, information content 0); probability in (0,1]; information content non-negative and antitone for any '
          'antitone -log. ic.load and the satellite-adjective folding are decided by the oracle on the implementation.',
          'Trusted: Coq kernel + vm_compute; floats modelled as exact rationals (generator restricted to exactly representable '
          'sums, checked with Fraction); math.log abstract; wordnet.synsets(word) is a model input checked by the oracle.',
